@@ -67,11 +67,22 @@ def _mask(r):
     return [[[c, l, co, _PRED.sub("<predicate>", m)] for c, l, co, m in r[0]], [[k, [_PRED.sub("<predicate>", t) for t in ts]] for k, ts in r[1]]]
 
 
+_PROTO = re.compile(r" \(Protocol with members [^()]*\)")
+
+
+def _mask2(r):
+    if r[0] == "EXC":
+        return r
+    return [[[c, l, co, _PROTO.sub("", m)] for c, l, co, m in r[0]], [[k, [_PROTO.sub("", t) for t in ts]] for k, ts in r[1]]]
+
+
 def diff_kind(a, b):
     if a[0] == "EXC" or b[0] == "EXC":
         return "exception"
     if _mask(a) == _mask(b):
         return "predicate-repr"
+    if _mask2(a) == _mask2(b):
+        return "protocol-members-text"
     return "diagnostics" if a[0] != b[0] else "inferred"
 
 
